@@ -388,17 +388,24 @@ func affRandomCase(g *hx.Gen, maxLen int) string {
 
 func c08AffGen(g *hx.Gen) {
 	fam := affFamily()
-	// bounded-exhaustive: every pair over {a,c} up to length 3 (quick) / 4 (thorough), the whole
-	// family; over {a,c,g} up to length 2 (quick) / 3 (thorough) with three matrices
-	affExhaustive(g, "ac", g.Scale(3, 4), fam, affOpens)
-	affExhaustive(g, "acg", g.Scale(2, 3), []string{fam[0], fam[4], fam[8]}, affOpens)
-	n := g.Scale(4000, 60000)
+	// bounded-exhaustive core: every pair over {a,c} up to length 3 with the whole family and
+	// every gap-open value; every pair over {a,c,g} up to length 2 with three matrices
+	affExhaustive(g, "ac", 3, fam, affOpens)
+	affExhaustive(g, "acg", 2, []string{fam[0], fam[4], fam[8]}, affOpens)
+	// random pairs (related, unrelated, fragments) over four alphabets
+	n := g.Scale(6000, 60000)
 	for k := 0; k < n && !g.Done(); k++ {
 		g.Case(affRandomCase(g, g.Scale(60, 200)))
 	}
-	if g.Thorough() {
-		affExhaustive(g, "ac", 5, []string{fam[4], fam[5], fam[8]}, []int{0, -2})
+	// wider bounded-exhaustive domains, as far as the budget goes
+	if !g.Thorough() {
+		affExhaustive(g, "acg", 3, []string{fam[4], fam[8]}, []int{0, -2, -100})
+		return
 	}
+	affExhaustive(g, "ac", 4, fam, affOpens)
+	affExhaustive(g, "acg", 3, []string{fam[0], fam[4], fam[8]}, affOpens)
+	affExhaustive(g, "ac", 5, []string{fam[4], fam[5], fam[8]}, []int{0, -2})
+	affExhaustive(g, "acg", 4, []string{fam[4], fam[8]}, []int{0, -2})
 }
 
 func affShrink(input string) []string {
